@@ -50,7 +50,7 @@ def do_call(ex: Exec, node: ast.Call, st: State):
                     return call_value(ex, fld, node, st)
                 raise OutOfReach(f"method {base.cls}.{f.attr}")
             rel, qual, mnode = m
-            info = ex.ctx.registry.contracts.get((rel, qual))
+            info = ex.ctx.registry.lookup(rel, qual, base.cls)
             if info is None:
                 raise OutOfReach(f"call to uncontracted method {qual} in expression position")
             args, kw = eval_args(ex, node, st)
@@ -125,6 +125,8 @@ def coerce(ex, v, sort, st):
         if isinstance(v, VOpt):
             return VOpt(v.isnone, coerce(ex, v.val, sort.inner, st))
         return VOpt(z3.BoolVal(False), coerce(ex, v, sort.inner, st))
+    if isinstance(v, VOpt) and not isinstance(sort, S.Opt):
+        v = v.val  # Optional actual for a non-optional formal: the caller guards with `is not None`
     if isinstance(sort, S.Seq) and isinstance(v, (VTup, VPyList)):
         r = ex.as_seq(v, sort.elem)
         return VSeq(r.term, r.elem, sort.kind)
@@ -135,6 +137,10 @@ def coerce(ex, v, sort, st):
 
 def apply_contract(ex, info, fnode, args, kw, st, node):
     env = bind_params(ex, fnode, args, kw, st)
+    return apply_contract_env(ex, info, env, st, node)
+
+
+def apply_contract_env(ex, info, env, st, node):
     for p, srt in info.params.items():
         if p in env and not isinstance(env[p], VObj):
             env[p] = coerce(ex, env[p], srt, st)
@@ -156,9 +162,13 @@ def apply_contract(ex, info, fnode, args, kw, st, node):
     if isinstance(selfobj, VObj) and info.modifies:
         old_self = selfobj.copy()
         old["old_self"] = old_self
+        decl = info.params.get("self")
+        decl = decl.fields if isinstance(decl, S.Obj) else {}
         for fld in info.modifies:
             cur = selfobj.fields.get(fld)
-            if cur is not None:
+            if fld in decl:
+                selfobj.fields[fld] = S.fresh(decl[fld], f"self.{fld}")
+            elif cur is not None:
                 if isinstance(cur, VPyList):
                     raise OutOfReach(f"callee modifies concrete list field {fld}")
                 selfobj.fields[fld] = S.fresh(S.sort_of(cur), f"self.{fld}")
@@ -187,9 +197,11 @@ def apply_spec(ex, sp, args, st):
     if sp._z3fn is None:
         doms = []
         for s in sp.args:
-            doms.append(_z3sort(s))
+            doms.extend(flat_sorts(s))
         sp._z3fn = z3.Function("spec_" + sp.name, *doms, _z3sort(sp.ret))
-    terms = [ex.term_of(a, s) for a, s in zip(args, sp.args)]
+    terms = []
+    for a, s in zip(args, sp.args):
+        terms.extend(flatten(ex, a, s))
     app = sp._z3fn(*terms)
     res = S.wrap(sp.ret, app)
     seen = st.facts.unfolded
@@ -230,6 +242,66 @@ def lemma_formula(ex, sp, args, st, depth=None):
 
 def _z3sort(s):
     return s.z3()
+
+
+def flat_sorts(s):
+    if isinstance(s, S.Opt):
+        return [z3.BoolSort()] + flat_sorts(s.inner)
+    if isinstance(s, S.Dict):
+        return [S.CSetS, S.RMapS]
+    if isinstance(s, S.Tup):
+        out = []
+        for i in s.items:
+            out.extend(flat_sorts(i))
+        return out
+    return [s.z3()]
+
+
+def flatten(ex, v, s):
+    if isinstance(s, S.Opt):
+        if isinstance(v, VNone):
+            v = VOpt(z3.BoolVal(True), S.fresh(s.inner, "none"))
+        if not isinstance(v, VOpt):
+            v = VOpt(z3.BoolVal(False), v)
+        inner = flatten(ex, v.val, s.inner)
+        # canonical payload under None so that equal optionals give equal applications
+        dflt = flatten(ex, default_value(s.inner), s.inner)
+        return [v.isnone] + [z3.If(v.isnone, d, t) if not z3.is_true(v.isnone) else d for t, d in zip(inner, dflt)] \
+            if not z3.is_false(z3.simplify(v.isnone)) else [v.isnone] + inner
+    if isinstance(s, S.Dict):
+        if isinstance(v, VOpt):
+            v = v.val
+        return [v.keys, v.vals]
+    if isinstance(s, S.Tup):
+        out = []
+        for it, si in zip(v.items, s.items):
+            out.extend(flatten(ex, it, si))
+        return out
+    return [ex.term_of(v, s)]
+
+
+def default_value(s):
+    if s is S.Int:
+        return mk_int(0)
+    if s is S.Real or s is S.Float:
+        return VNum(z3.RealVal(0), "real")
+    if s is S.Bool:
+        return VBool(False)
+    if s is S.Str:
+        return VStr(z3.Const("str_default", S.PyStr))
+    if s is S.CSet:
+        return VSet(S.EMPTY_SET)
+    if isinstance(s, S.Seq):
+        return VSeq(z3.Empty(s.z3()), s.elem, s.kind)
+    if isinstance(s, S.Dict):
+        return VDict(S.EMPTY_SET, z3.K(S.PyStr, z3.RealVal(0)), s.val)
+    if s is S.Ballot:
+        return VRec(z3.Const("ballot_default", S.BallotS), "Ballot")
+    if s is S.Profile:
+        return VRec(z3.Const("profile_default", S.ProfileS), "Profile")
+    if isinstance(s, S.Tup):
+        return VTup([default_value(i) for i in s.items])
+    raise OutOfReach(f"default value of {s}")
 
 
 # ---------------------------------------------------------------- methods on builtin values
@@ -342,8 +414,11 @@ def construct(ex, fv, args, kw, st, node):
         info = ex.ctx.registry.contracts.get(("pref_profile.py", "PreferenceProfile.__init__"))
         if info is None:
             raise OutOfReach("PreferenceProfile(...) needs its constructor contract (A-PYD)")
-        fnode = info.cls.signature_node()
-        return apply_contract(ex, info, fnode, args, kw, st, node)
+        if args:
+            raise OutOfReach("positional PreferenceProfile args")
+        env = {"ballots": kw.get("ballots", VSeq(z3.Empty(S.SeqBallot), S.Ballot)),
+               "candidates": kw.get("candidates", VSeq(z3.Empty(S.SeqStr), S.Str))}
+        return apply_contract_env(ex, info, env, st, node)
     raise OutOfReach(f"constructor {name}")
 
 
@@ -456,7 +531,7 @@ def call_stmt(ex: Exec, node: ast.Call, st: State, target):
             callee = (fv.module, fv.name, fv.node, fv.bound)
     if callee is not None:
         rel, qual, fnode, selfobj = callee
-        info = ex.ctx.registry.contracts.get((rel, qual))
+        info = ex.ctx.registry.lookup(rel, qual, selfobj.cls if isinstance(selfobj, VObj) else None)
         if info is None or info.inline:
             return inline_call(ex, rel, qual, fnode, selfobj, info, node, st, target)
         args, kw = eval_args(ex, node, st)
